@@ -15,7 +15,7 @@ RULE = ("(a) pair laws (== <-> same uri, equal => equal hash, == str <-> same st
         "operation sequence).")
 ASSUME = ["exceptions raised by an operation are not C14 violations (other properties own them); only changed Sids are",
           "private attributes (_fields, _string) are not assigned by the workload: only public operations and returned containers"]
-BUDGET = {"quick": (400, 1200), "thorough": (6000, 20000)}   # (pair batches, sequences)
+BUDGET = {"quick": (400, 1200), "thorough": (16000, 64000)}   # (pair batches, sequences)
 NSHARDS = 16
 
 
